@@ -65,6 +65,143 @@ def mutations(rng, data, node):
     return [(k, a[:4096]) for k, a in out]
 
 
+# ---------------------------------------------------------------------------------------------------------------------
+# recursive types (outside the Lean universe): nesting is where "work proportional to the input" can fail — a decoder that
+# re-reads bits it has already consumed, or that trusts an inner length more than the outer one, multiplies work per level
+
+RECURSIVE = [
+    ('Node', 'M DEFINITIONS AUTOMATIC TAGS ::= BEGIN Node ::= SEQUENCE { leaf BOOLEAN, ..., kids SEQUENCE OF Node } END'),
+    ('Tree', 'M DEFINITIONS AUTOMATIC TAGS ::= BEGIN Tree ::= SEQUENCE { v INTEGER (0..255), next Tree OPTIONAL } END'),
+    ('Ch', 'M DEFINITIONS AUTOMATIC TAGS ::= BEGIN Ch ::= CHOICE { leaf BOOLEAN, pair SEQUENCE { l Ch, r Ch }, ..., more SEQUENCE (SIZE(0..4)) OF Ch } END'),
+    ('Grp', 'M DEFINITIONS AUTOMATIC TAGS ::= BEGIN Grp ::= SEQUENCE { a BOOLEAN, ..., [[ b Grp OPTIONAL, c INTEGER (0..7) OPTIONAL ]], d SEQUENCE OF Grp OPTIONAL } END'),
+    ('Lst', 'M DEFINITIONS AUTOMATIC TAGS ::= BEGIN Lst ::= SEQUENCE OF Item Item ::= CHOICE { n INTEGER (0..65535), sub Lst, ..., s OCTET STRING } END'),
+]
+
+
+def rec_value(name, rng, depth):
+    if name == 'Node':
+        v = {'leaf': rng.random() < 0.5}
+        if depth > 0 and rng.random() < 0.9:
+            v['kids'] = [rec_value(name, rng, depth - 1) for _ in range(rng.choice([1, 1, 1, 2, 3]))]
+        return v
+    if name == 'Tree':
+        v = {'v': rng.randrange(256)}
+        if depth > 0:
+            v['next'] = rec_value(name, rng, depth - 1)
+        return v
+    if name == 'Ch':
+        if depth <= 0:
+            return ('leaf', rng.random() < 0.5)
+        x = rng.random()
+        if x < 0.5:
+            return ('pair', {'l': rec_value(name, rng, depth - 1), 'r': rec_value(name, rng, depth - 3)})
+        if x < 0.9:
+            return ('more', [rec_value(name, rng, depth - 1) for _ in range(rng.randint(0, 2))])
+        return ('leaf', True)
+    if name == 'Grp':
+        v = {'a': rng.random() < 0.5}
+        if depth > 0:
+            if rng.random() < 0.8:
+                v['b'] = rec_value(name, rng, depth - 1)
+            if rng.random() < 0.5:
+                v['c'] = rng.randrange(8)
+            if rng.random() < 0.3:
+                v['d'] = [rec_value(name, rng, depth - 2) for _ in range(rng.randint(0, 2))]
+        return v
+    if name == 'Lst':
+        out = []
+        for _ in range(rng.randint(1, 3)):
+            x = rng.random()
+            if depth > 0 and x < 0.6:
+                out.append(('sub', rec_value(name, rng, depth - 1)))
+            elif x < 0.85:
+                out.append(('n', rng.randrange(65536)))
+            else:
+                out.append(('s', bytes(rng.randrange(256) for _ in range(rng.randint(0, 3)))))
+        return out
+    raise ValueError(name)
+
+
+def count_scalars(v):
+    if isinstance(v, dict):
+        return sum(count_scalars(x) for x in v.values()) + 1
+    if isinstance(v, list):
+        return sum(count_scalars(x) for x in v) + 1
+    if isinstance(v, tuple) and len(v) == 2 and isinstance(v[0], str):
+        return count_scalars(v[1]) + 1
+    return 1
+
+
+def structural_mutations(rng, data):
+    """edits aimed at nested length fields: every occurrence of one byte value changed at once, and a window repeated"""
+    out = []
+    if not data:
+        return out
+    freq = {}
+    for b in data:
+        freq[b] = freq.get(b, 0) + 1
+    common = sorted(freq, key=lambda b: -freq[b])[:6]
+    for _ in range(4):
+        a = rng.choice(common)
+        nb = rng.choice([max(a - 1, 0), max(a - 2, 0), 0, 1, (a + 1) & 0xff, a >> 1])
+        out.append(('substitute-all', bytes(nb if x == a else x for x in data)))
+    for _ in range(3):
+        k = rng.choice([2, 3, 4, 4, 5, 8])
+        i = rng.randrange(max(1, len(data) - k))
+        r = rng.choice([4, 16, 40, 60])
+        out.append(('repeat-window', (data[:i] + data[i:i + k] * r + data[i + k:])[:4096]))
+    for _ in range(2):
+        k = rng.choice([3, 4, 4, 5])
+        i = rng.randrange(max(1, len(data) - k))
+        w = bytearray(data[i:i + k])
+        if w:
+            j = rng.randrange(len(w))
+            w2 = bytearray(w)
+            w2[j] = max(w2[j] - rng.choice([1, 2]), 0)
+            out.append(('repeat-window-decremented', (data[:i] + bytes(w2) * rng.choice([10, 30, 60]) + bytes(w) * 2 + data[i + k:])[:4096]))
+    return out
+
+
+def work_rec(job):
+    soft0, hard0 = resource.getrlimit(resource.RLIMIT_AS)
+    resource.setrlimit(resource.RLIMIT_AS, (MEM_LIMIT, hard0))
+    part = core.Part()
+    for (seed, name, text) in job:
+        rng = random.Random(seed)
+        vals = [rec_value(name, rng, rng.choice([2, 4, 6, 9, 14, 20])) for _ in range(3)]
+        for codec in CODECS:
+            st, spec = impl.compile_text(text, codec)
+            if st != 'ok':
+                part.count('recursive.compile.' + st)
+                continue
+            for v in vals:
+                r = impl.encode(spec, name, v)
+                if r[0] != 'ok':
+                    continue
+                data = r[1]
+                node = None
+                alts = mutations(rng, data, node) + structural_mutations(rng, data)
+                for kind, alt in alts:
+                    part.case((text, codec, alt))
+                    try:
+                        d = impl.decode(spec, name, alt, limit=TIME_LIMIT)
+                    except MemoryError:
+                        d = ('err', 'MemoryError', '')
+                    part.count('recursive.%s.%s' % (codec, 'value' if d[0] == 'ok' else d[1].split(':')[-1]))
+                    part.count('mutation.' + kind.split('+')[0])
+                    if d[0] == 'err' and (d[1] == 'Timeout' or d[1].endswith('MemoryError')):
+                        part.violation('%s: decoding %d octets of malformed input %s' % (codec, len(alt), 'did not finish within %.0f s of CPU time' % TIME_LIMIT if d[1] == 'Timeout' else 'exhausted memory (%s)' % d[1]),
+                                       {'codec': codec, 'module': text, 'type': name, 'input': alt.hex() if codec not in ('jer', 'xer') else alt.decode('utf-8', 'replace'), 'mutation': kind})
+                        continue
+                    if d[0] == 'ok':
+                        n = count_scalars(d[1])
+                        if n > 8 * len(alt) + 16:
+                            part.violation('%s: %d octets of input decode to a value with %d components — more than one per input bit: the decoder reads input more than once' % (codec, len(alt), n),
+                                           {'codec': codec, 'module': text, 'type': name, 'input': alt.hex() if codec not in ('jer', 'xer') else alt.decode('utf-8', 'replace'), 'mutation': kind, 'components': n})
+    resource.setrlimit(resource.RLIMIT_AS, (soft0, hard0))
+    return part
+
+
 def work(job):
     soft0, hard0 = resource.getrlimit(resource.RLIMIT_AS)
     resource.setrlimit(resource.RLIMIT_AS, (MEM_LIMIT, hard0))
@@ -148,6 +285,18 @@ def run(ctx):
     parts = core.parallel_map(work, [jobs[k::n] for k in range(n)])
     core.merge(ctx, parts)
     ctx.model.calls += ctx.hist.pop('model_driver_requests', 0)
+    rjobs = [(rng.getrandbits(32), nm, tx) for _ in range(ctx.n(8, 120)) for nm, tx in RECURSIVE]
+    parts = core.parallel_map(work_rec, [rjobs[k::n] for k in range(n)])
+    core.merge(ctx, parts)
+    # regression vector of a repaired defect (fix ace6523): a CHOICE extension addition longer than its open type length
+    rt = RECURSIVE[2][1]
+    for codec in ('per', 'uper'):
+        st, spec = impl.compile_text(rt, codec)
+        d = impl.decode(spec, 'Ch', bytes.fromhex('80004400'))
+        ctx.case(('regression', 'choice-addition-longer-than-open-type', codec))
+        if d[0] == 'ok':
+            ctx.violation('%s: a CHOICE extension addition longer than its open type length is accepted (the read position moves backwards; nested, the input is decoded many times over)' % codec,
+                          {'codec': codec, 'module': rt, 'type': 'Ch', 'input': '80004400', 'decoded': repr(d[1])})
     # witness of the recorded finding (cheap form: quantity 2^24 would already take seconds; use the class only)
     w = 'M DEFINITIONS AUTOMATIC TAGS ::= BEGIN A ::= SEQUENCE OF NULL END'
     st, spec = impl.compile_text(w, 'oer')
